@@ -7,16 +7,22 @@ ID = 'C20'
 HARNESS = 'c20'
 COQ_IMPORTS = 'From VRP Require Import Base.Tac Model.Core Spec.Feasible Model.Eval Model.Objectives.'
 MODEL_TARGETS = ['theories/Model/Eval.vo']
+MODEL_NEEDS_IMPL = True
 SHARD = 60
-SIZES = {'quick': 600, 'thorough': 10000, 'search': 5000}
+SIZES = {'quick': 700, 'thorough': 10000, 'search': 5000}
 RULE = ('cases: a target vehicle with a tour of 0-5 activities (empty tour = route taken from the registry), 0-1 other routes, '
-        '0-2 ignored jobs and 0-2 other required jobs, goal layers [unassigned, tours, cost] or [unassigned, tours, distance]; '
-        'uniform time cost rates in 3 of 4 cases; the candidate is a single job (boundary-targeted or random windows). The quote of '
+        '0-2 ignored jobs and 0-2 other required jobs, goal layers [unassigned, tours, cost], [unassigned, tours, distance], '
+        '[unassigned, value, distance] or [unassigned, value, cost] (values on the candidate and on about half of the jobs already in tours); '
+        'uniform time cost rates in 3 of 4 cases; the candidate is a single job (boundary-targeted or random windows) or, in 1 of 4 cases, a '
+        'pickup-and-delivery (multi) job whose two activities are placed by the real eval_multi. The quote of '
         'eval_job_insertion_in_route is compared layer by layer with fitness(recreate step with the insertion) - fitness(recreate step '
         'without it), both produced by the real InsertionHeuristic::process. non-trivial = distinct cases where the insertion succeeded.')
 TRUSTED = ['time-independent routing; SimpleActivityCost; driver costs zero (as the pragmatic format produces)']
-ASSUMPTIONS = ['cost layer equality is claimed only for uniform time cost rates and tours without waiting before and after (as the property states)',
+ASSUMPTIONS = ['cost layer equality is claimed only for uniform time cost rates and tours without waiting before and after (as the property states); '
+               'for a multi job also every intermediate shadow tour must be free of waiting',
                'the unassigned count is taken at hand-over (after finalize moves pending jobs to unassigned), see notes/C20.md']
+
+VALUE_GOALS = ('unassigned+value+distance', 'unassigned+value+cost')
 
 
 def generate(rng, tier, n):
@@ -33,11 +39,20 @@ def generate(rng, tier, n):
                 a['tws'] = 0
         c = dict(w)
         c['tour'] = tour
-        c['goal'] = rng.choice(['unassigned+tours+cost', 'unassigned+tours+cost', 'unassigned+tours+distance'])
-        j = K.gen_boundary_single(rng, w, tour) if rng.chance(1, 2) else K.gen_single(rng, w, tour, multi_alt=rng.chance(1, 4))
+        c['goal'] = rng.choice(['unassigned+tours+cost', 'unassigned+tours+cost', 'unassigned+tours+distance',
+                                'unassigned+value+distance', 'unassigned+value+cost'])
+        if rng.chance(1, 4):
+            j = K.gen_multi(rng, w, tour)
+            if rng.chance(1, 2):          # wide windows: both activities usually fit, often with other stops between them
+                for s in j['multi']:
+                    for p in s['places']:
+                        p['tws'] = [[0, 'inf']]
+        else:
+            j = K.gen_boundary_single(rng, w, tour) if rng.chance(1, 2) else K.gen_single(rng, w, tour, multi_alt=rng.chance(1, 4))
         if nowait and rng.chance(3, 4):
-            for p in j['places']:
-                p['tws'] = [[0, wn[1]] for wn in p['tws']]
+            for s in j.get('multi', [j]):
+                for p in s['places']:
+                    p['tws'] = [[0, wn[1]] for wn in p['tws']]
         c['job'] = j
         others = []
         if rng.chance(1, 2):
@@ -50,6 +65,11 @@ def generate(rng, tier, n):
             if ot:
                 others.append({'veh': ov, 'tour': [dict(a, job=a['job'] + 40) for a in ot]})
         c['others'] = others
+        if c['goal'] in VALUE_GOALS:
+            j['value'] = rng.range(0, 9)
+            for a in tour + [a for o in others for a in o['tour']]:
+                if rng.chance(1, 2):
+                    a['value'] = rng.range(1, 9)
         c['ignored'] = rng.choice([0, 0, 0, 1, 2])
         c['extra_required'] = rng.choice([0, 0, 1, 2])
         cases.append(c)
@@ -62,10 +82,35 @@ def corpus():
          'veh': {'start': 0, 'end': 0, 'shift_start': 0, 'shift_end': 'inf', 'cap': 10, 'costs': [5, 1, 1, 1, 1]}}
     c = dict(w, tour=[], goal='unassigned+tours+cost', others=[], ignored=2, extra_required=0,
              job={'id': 90, 'places': [{'loc': 1, 'svc': 0, 'tws': [[0, 'inf']]}], 'dem': [0, 0, 1, 0]})
-    return [c]
+    # a valued pickup-and-delivery job placed around an existing stop (its two activities are not adjacent afterwards)
+    w2 = {'n': 4, 'dur': [0, 10, 20, 30, 10, 0, 10, 20, 20, 10, 0, 10, 30, 20, 10, 0], 'dist': [0, 10, 20, 30, 10, 0, 10, 20, 20, 10, 0, 10, 30, 20, 10, 0],
+          'veh': {'start': 0, 'end': 0, 'shift_start': 0, 'shift_end': 'inf', 'cap': 10, 'costs': [5, 1, 1, 1, 1]}}
+    sub = lambda i, loc, dem: {'id': i, 'places': [{'loc': loc, 'svc': 0, 'tws': [[0, 'inf']]}], 'dem': dem}
+    c2 = dict(w2, tour=[{'job': 1, 'loc': 2, 'svc': 0, 'tws': 0, 'twe': 'inf', 'dem': [0, 0, 1, 0], 'value': 3}],
+              goal='unassigned+value+distance', others=[], ignored=0, extra_required=0,
+              job={'id': 95, 'multi': [sub(951, 1, [0, 2, 0, 0]), sub(952, 3, [0, 0, 0, 2])], 'value': 7})
+    return [c, c2]
 
 
-def model_term(c):
+def is_multi(c):
+    return 'multi' in c['job']
+
+
+def steps_of(c, impl):
+    subs = {('j%d' % s['id']): s for s in c['job']['multi']}
+    out = []
+    for a in impl['quote']['acts']:
+        s = subs[a['job']]
+        out.append('(%s, (%s, %s, %s, %s, %s, %s))' % (nat(a['index']), z(s['id']), z(a['loc']), z(tz(a['svc'])), z(tz(a['tws'])),
+                                                      z(tz(a['twe'])), K.g_demand(s['dem'])))
+    return '[' + '; '.join(out) + ']'
+
+
+def model_term(c, impl):
+    if is_multi(c):
+        if 'panic' in impl or not impl['quote']['ok']:
+            return None                       # eval_multi's search is not modelled; only its result is (as a certificate)
+        return 'run_c20_multi %s %s %s' % (K.g_world(c), lst(c['tour'], K.g_tact), steps_of(c, impl))
     return 'run_c20 %s %s %s %s' % (K.g_world(c), lst(c['tour'], K.g_tact), K.g_single(c['job']),
                                     '0' if c['goal'].endswith('cost') else '1')
 
@@ -74,11 +119,32 @@ def canon_t(x):
     return 'inf' if x == 'inf' or (isinstance(x, int) and x >= INF // 2) else x
 
 
+def model_quote(c, nums):
+    tours_q, d0, d1, c0, c1, nw0, nw1, dq, cq = nums
+    second = -c['job'].get('value', 0) if c['goal'] in VALUE_GOALS else tours_q
+    return [-1, second, cq if c['goal'].endswith('cost') else dq]
+
+
 def compare(c, impl, model):
     if 'panic' in impl:
         return 'implementation panicked: %s' % impl['panic']
-    res, nums, sched = model
     q = impl['quote']
+    if is_multi(c):
+        ok, nums, sched = model
+        if ok != 1:
+            return 'multi insertion certificate rejected by the model: some step does not pass the modelled evaluation'
+        mq = model_quote(c, nums)
+        if q['cost'] != mq:
+            return 'quote vector (multi job): impl %s model %s' % (q['cost'], mq)
+        if impl['inserted'] and impl['after'] is not None:
+            isched = [[canon_t(a), canon_t(b)] for a, b in impl['after']['sched']]
+            msched = [[canon_t(a), canon_t(b)] for a, b in sched]
+            if isched != msched:
+                return 'schedule after the multi insertion: impl %s model %s' % (isched, msched)
+            if impl['after']['dist'] != nums[2]:
+                return 'distance after: impl %s model %s' % (impl['after']['dist'], nums[2])
+        return None
+    res, nums, sched = model
     if q['ok']:
         if res[0] != 1:
             return 'impl success, model %s' % (res,)
@@ -86,8 +152,7 @@ def compare(c, impl, model):
         exp = [canon_t(x) for x in res[1:7]]
         if got != exp:
             return 'insertion: impl %s model %s' % (got, exp)
-        tours_q, d0, d1, c0, c1, nw0, nw1, dq, cq = nums
-        mq = [-1, tours_q, cq if c['goal'].endswith('cost') else dq]
+        mq = model_quote(c, nums)
         if q['cost'] != mq:
             return 'quote vector: impl %s model %s' % (q['cost'], mq)
         if impl['inserted'] and impl['after'] is not None:
@@ -95,12 +160,25 @@ def compare(c, impl, model):
             msched = [[canon_t(a), canon_t(b)] for a, b in sched]
             if isched != msched:
                 return 'schedule after insertion: impl %s model %s' % (isched, msched)
-            if impl['after']['dist'] != d1:
-                return 'distance after: impl %s model %s' % (impl['after']['dist'], d1)
+            if impl['after']['dist'] != nums[2]:
+                return 'distance after: impl %s model %s' % (impl['after']['dist'], nums[2])
     else:
         if res[0] != 0 or [q['code'], 1 if q['stopped'] else 0] != list(res[1:3]):
             return 'impl failure %s model %s' % (q, res)
     return None
+
+
+def shadow_tours(c, q):
+    """the tour before, after each inserted activity (python twin of the shadow tours)"""
+    t = K.full_tour(c, c['tour'])
+    subs = {('j%d' % s['id']): s for s in c['job'].get('multi', [])}
+    out = [t]
+    for a in q['acts']:
+        dem = subs[a['job']]['dem'] if subs else (c['job']['dem'] or [0, 0, 0, 0])
+        x = {'loc': a['loc'], 'svc': tz(a['svc']), 'tws': tz(a['tws']), 'twe': tz(a['twe']), 'dem': dem, 'term': False}
+        t = t[:a['index'] + 1] + [x] + t[a['index'] + 1:]
+        out.append(t)
+    return out
 
 
 def oracle(c, impl):
@@ -114,6 +192,7 @@ def oracle(c, impl):
         return v
     if not impl['inserted']:
         return [{'class': 'quoted-not-inserted', 'what': 'evaluator quoted a success but the recreate step did not insert the job'}]
+    kind = ' (multi job)' if is_multi(c) else ''
     fw, fo = impl['fit_with'], impl['fit_without']
     delta = [a - b for a, b in zip(fw, fo)]
     # layer 0: unassigned
@@ -121,24 +200,22 @@ def oracle(c, impl):
         empty_before = (not c['tour']) and not c['others']
         cls = 'unassigned-ignored-counted-only-without-routes' if (empty_before and c['ignored'] > 0 and
                                                                       delta[0] == q['cost'][0] - c['ignored']) else 'unassigned-quote'
-        v.append({'class': cls, 'what': 'unassigned objective changed by %s, quote %s' % (delta[0], q['cost'][0])})
+        v.append({'class': cls, 'what': 'unassigned objective changed by %s, quote %s%s' % (delta[0], q['cost'][0], kind)})
     if delta[1] != q['cost'][1]:
-        v.append({'class': 'tours-quote', 'what': 'tours objective changed by %s, quote %s' % (delta[1], q['cost'][1])})
+        name = 'value' if c['goal'] in VALUE_GOALS else 'tours'
+        v.append({'class': name + '-quote', 'what': '%s objective changed by %s, quote %s%s' % (name, delta[1], q['cost'][1], kind)})
     if c['goal'].endswith('distance'):
         if delta[2] != q['cost'][2]:
-            v.append({'class': 'distance-quote', 'what': 'distance objective changed by %s, quote %s' % (delta[2], q['cost'][2])})
+            v.append({'class': 'distance-quote', 'what': 'distance objective changed by %s, quote %s%s' % (delta[2], q['cost'][2], kind)})
     else:
         costs = c['veh']['costs']
         uniform = costs[2] == costs[3] == costs[4]
-        t0 = K.full_tour(c, c['tour'])
-        _, _, s0, _ = K.simulate(c, t0)
-        x = {'loc': q['loc'], 'svc': tz(q['svc']), 'tws': tz(q['tws']), 'twe': tz(q['twe']), 'dem': c['job']['dem'], 'term': False}
-        t1 = t0[:q['index'] + 1] + [x] + t0[q['index'] + 1:]
-        _, _, s1, _ = K.simulate(c, t1)
-        nowait0 = all(a['tws'] <= s0[i][0] for i, a in enumerate(t0) if i > 0)
-        nowait1 = all(a['tws'] <= s1[i][0] for i, a in enumerate(t1) if i > 0)
-        if uniform and nowait0 and nowait1 and delta[2] != q['cost'][2]:
-            v.append({'class': 'cost-quote-nowait', 'what': 'cost objective changed by %s, quote %s (no waiting, uniform time cost)' % (delta[2], q['cost'][2])})
+        nowait = True
+        for t in shadow_tours(c, q):
+            _, _, s, _ = K.simulate(c, t)
+            nowait = nowait and all(a['tws'] <= s[i][0] for i, a in enumerate(t) if i > 0)
+        if uniform and nowait and delta[2] != q['cost'][2]:
+            v.append({'class': 'cost-quote-nowait', 'what': 'cost objective changed by %s, quote %s (no waiting, uniform time cost)%s' % (delta[2], q['cost'][2], kind)})
     return v
 
 
@@ -149,19 +226,26 @@ def nontrivial_key(c, impl):
 
 
 def classify(c, impl):
-    labs = ['goal=' + c['goal'], 'tour_len=%d' % len(c['tour']), 'ignored=%d' % c['ignored'], 'others=%d' % len(c['others'])]
+    labs = ['goal=' + c['goal'], 'tour_len=%d' % len(c['tour']), 'ignored=%d' % c['ignored'], 'others=%d' % len(c['others']),
+            'job=' + ('multi' if is_multi(c) else 'single')]
     if 'panic' not in impl:
         labs.append('quote=' + ('success' if impl['quote']['ok'] else 'failure'))
+        if is_multi(c) and impl['quote']['ok'] and impl.get('after_jobs'):
+            ids = ['j%d' % s['id'] for s in c['job']['multi']]
+            pos = [i for i, j in enumerate(impl['after_jobs']) if j in ids]
+            labs.append('multi_activities=' + ('adjacent' if len(pos) == 2 and pos[1] == pos[0] + 1 else 'separated'))
     return labs
 
 
 MANIFEST_TEXT = ('Machine-checked proof (Coq): over the executable model of the objectives (minimize-unassigned with its ignored-jobs rule, '
                  'tours, total value, distance via estimate_leg, the cost objective via estimate_route/estimate_activity and get_total_cost) '
                  'the quote equals the realised change of the objective: unassigned (at hand-over), tours, value and distance for every tour, '
-                 'position and matrix; cost for uniform time rates when the tour has no waiting before and after. The model is tied to /repo on '
-                 'every run: the quote of the real eval_job_insertion_in_route and the fitness vectors of two real recreate steps (with / without the '
-                 'insertion) are compared with the model and the equality is checked on the implementation output.')
+                 'position and matrix, distance also for multi-activity jobs (sum of the per-activity quotes on the shadow tours); cost for uniform '
+                 'time rates when the tour has no waiting before and after. The model is tied to /repo on '
+                 'every run: the quote of the real eval_job_insertion_in_route (single and pickup-delivery candidates, goals with tours or value as '
+                 'second layer) and the fitness vectors of two real recreate steps (with / without the insertion) are compared with the model and '
+                 'the equality is checked on the implementation output.')
 MANIFEST_NOTE = ('Trusted: Coq kernel+vm_compute; harness/generators. Modelled not verified: time-dependent routing, work-balance / tour-compactness / '
-                 'fast-service objectives (not additive; outside the statement), multi-jobs (quote = sum of per-activity quotes on the shadow tour: validated only). '
+                 'fast-service objectives (not additive; outside the statement); for multi-jobs the search of eval_multi is not modelled, its result is replayed as a certificate. '
                  'Known finding: unassigned objective counts ignored jobs only while the solution has no routes.')
 MANIFEST_TECHNIQUE = 'Coq proof (quote = objective delta, induction over tours) + vm_compute differential correspondence'
